@@ -170,7 +170,9 @@ int SPxScaler<R>::computeScaleExp(const SVectorBase<R>& vec,
    // find largest absolute value after applying existing scaling factors
    for(int i = 0; i < vec.size(); ++i)
    {
-      R x = spxAbs(spxLdexp(vec.value(i), oldScaleExp[vec.index(i)]));
+      // entries may refer to rows/columns that are yet to be created; these are unscaled
+      int oldExp = (vec.index(i) < oldScaleExp.size()) ? oldScaleExp[vec.index(i)] : 0;
+      R x = spxAbs(spxLdexp(vec.value(i), oldExp));
 
       if(GT(x, maxi, this->tolerances()->epsilon()))
          maxi = x;
